@@ -27,6 +27,8 @@ CONSTANTS
   U32R = 6
   Ticks = {}
   Clock0 = 1003
+  DelMax = 2
+  DelNewestOnly = FALSE
   MaxOps = 3
   MaxSnaps = 1
   MaxClock = 30
